@@ -3,6 +3,7 @@ import Driver.Reactor
 import Driver.Item
 import Driver.RateLimiter
 import Driver.Stats
+import Driver.Pause
 /-! zdriver: `zdriver <domain> [--base]` reads one JSON object per line, prints one result line each. -/
 open Lean
 
@@ -17,6 +18,7 @@ def stateless (f : Bool → Json → Except String String) : Domain :=
 
 def domains : List (String × Domain) := [
   ("disk", stateless Driver.Disk.step),
+  ("pause", { σ := Zeno.Model.Pause.S, init := {}, step := Driver.Pause.step }),
   ("stats", stateless Driver.Stats.step),
   ("diskwatch", stateless Driver.Disk.stepWatch),
   ("item", { σ := Zeno.Model.Item.Tree, init := Driver.Item.init, step := Driver.Item.step }),
